@@ -33,6 +33,10 @@ func runC06(c *Ctx) {
 	if len(tv) < 6 || len(ts) < 8 {
 		r.Unresolved("err/checked", "kvstore.TypedValue/TypedStore", fmt.Sprintf("expected the TypedValue and TypedStore method sets, found %d and %d methods", len(tv), len(ts)))
 	}
+	// 0. what the typed views are built on: the map store hands out and keeps private copies (a decoder
+	// that does not copy its input would otherwise expose - and let a consumer modify - stored bytes)
+	checkCopyDiscipline(r, p)
+	checkKVStoreTrustedHelpers(r, p)
 	// 1. error discipline
 	checkErrChecked(r, p, "err/checked", errScope{Pkg: pkg, Funcs: append(append([]*ast.FuncDecl{}, tv...), ts...)})
 	for _, fd := range append(append([]*ast.FuncDecl{}, tv...), ts...) {
